@@ -51,7 +51,9 @@ def matches(p, rx, s, acc):
         signal.signal(signal.SIGALRM, old)
 
 ATOMS = ["a", r"\.", r"\x41", ".", r"\d", r"\w", "[ab]", "[a-c]", r"[\w-]", "[^a]", "[^ab]", r"[^\d]",
-         "[^a-c]", r"[a\d]", r"[^\w]"]
+         "[^a-c]", r"[a\d]", r"[^\w]",
+         # negated classes mixing literal / range / category members in both orders
+         r"[^a\d]", r"[^\da]", r"[^a-c\d]", r"[^\d_a-c]", r"[^ \w]", r"[a-c\d_]"]
 QUANTS = ["", "?", "*", "+", "{2}", "{1,2}", "{2,}", "{33,}", "{0,44}", "*?", "+?", "??", "{1,2}?",
           "{0}", "{3,}?"]
 UNSUPPORTED = [r"(?=a)", r"(?!b)", r"(?<=a)", r"(?<!b)", r"\s", r"\S", r"\D", r"\W", r"[\s]", r"[^\D]",
